@@ -64,6 +64,9 @@ def main(tier):
         with ThreadPoolExecutor(6) as ex:
             outs = list(ex.map(lambda b: replay_on(b, hists, d), BACKENDS))
     facts = []
+    with common.scratch("lcs_") as d:
+        sw = replay_on("zkswitch", [], d)       # field switches inside one process: the same arguments before and after
+    facts += sw["facts"]
     for o in outs:
         facts += o["facts"]
         run.evaluations += len(o["traces"])
